@@ -187,7 +187,7 @@ func checkC03(tier, replay string) int {
 	} else {
 		runS3(r, x, allOps, 3, 3, engine.Options{}, "S3(e<=3,c<=3)")
 		runS3(r, arm, allOps, 3, 2, engine.Options{}, "S3(e<=3,c<=2)")
-		runS3(r, x, []seccomp.Operation{seccomp.Equal, seccomp.NotEqual, seccomp.BitsSet}, 3, 4, engine.Options{}, "S3(e<=3,c<=4,ops=Equal|NotEqual|BitsSet)")
+		runS3(r, x, []seccomp.Operation{seccomp.Equal, seccomp.BitsSet}, 3, 4, engine.Options{}, "S3(e<=3,c<=4,ops=Equal|BitsSet)")
 	}
 	runS3Big(r, x)
 	r.finish(fmt.Sprintf("all policies of scope S3: entry sequences of <=3 entries over 3 syscalls (numbers 0,1,59 on x86_64), entries unconditional or with a list of 1-2 conditions (arg in {0,1} x 8 operations x operands {nr(n1), nr(n2), 2^32+nr(n2)} chosen to collide with other entries' syscall numbers), same syscall repeated (merged OR lists) and repeated arguments included, in one group or split over two groups at every point, 2 defaults; each compiled by the real compiler and run on every cell of the exact partition (nr x arch x all argument words); tier %s bounds are in the scope labels of the samples; non-trivial = >= 2 distinct decisions", tier))
